@@ -4,7 +4,12 @@
 use impl_driver::{unhex, unhex_str};
 
 fn clip(s: String) -> String {
-  s.replace('\n', " ").replace('\t', " ").chars().take(200).collect()
+  // one response = one line for every line splitter: control characters and the Unicode line separators that may occur in a
+  // quoted document value inside an error message are blanked
+  s.chars()
+    .map(|c| if c.is_control() || c == '\u{2028}' || c == '\u{2029}' || c == '\u{85}' { ' ' } else { c })
+    .take(200)
+    .collect()
 }
 
 fn json(parts: &[&str]) -> String {
